@@ -10,7 +10,7 @@ RULE = ("ordered pairs from {BQM float64/float32/object dtype, BQM vartype views
         "CQM, CQM objective view, CQM constraint view, numbers, foreign objects}: the same content in another representation, "
         "single-field mutations of a copy (offset, one linear bias, one quadratic bias, one label, one vartype, a zero-bias "
         "interaction on one side, a dropped variable / interaction, permuted variable order; for a CQM one sense, one rhs, one "
-        "constraint label, permuted constraints, one lhs bias, a dropped / added constraint, a soft weight), equal shapes with "
+        "constraint label, permuted constraints, one lhs bias, a dropped / added constraint, a soft weight, differing weights / penalty kinds, a discrete mark on one side only, an unused CQM variable), equal shapes with "
         "disjoint labels, unrelated models, empty and constant models against numbers; observes a.is_equal(b), b.is_equal(a), "
         "== and != on BQM receivers, is_almost_equal for places 0, 3, 7; any exception is a violation; "
         "a case is non-trivial when the receiver is a model; distinct by canonical JSON of the case")
@@ -18,5 +18,5 @@ TRUSTED = ["model: coq/theories/Model/Equal.v, ChkC18.v (hand written, tied by t
            "float arithmetic / rounding of the implementation is exact on the generated dyadic data (not verified)"]
 ASSUMPTIONS = ["the coefficients, labels and vartypes a model reports are the ones equality is about",
                "variable bounds, soft-constraint weights and discrete markers are outside the documented scope of equality",
-               "is_almost_equal is compared with the specification only (no code-shaped model, no theorem): round(x, 0) == 0 iff |x| <= 1/2 and, for places >= 3, a non-zero dyadic difference with denominator <= 64 never rounds to zero"]
-PARTIAL = ["is_almost_equal is not modelled in Coq beyond the executable specification used as oracle"]
+               "round(a - b, places) is modelled on exact rationals (rounds to zero iff |a - b| * 10^places <= 1/2, ties to even); the float subtraction and numpy's multiply-rint-divide rounding are exact on the generated dyadic data"]
+PARTIAL = []
